@@ -256,6 +256,18 @@ class SymbolicExpression(Generic[T], ABC):
         return conditions_root
 
     @property
+    def _is_conditions_root_(self) -> bool:
+        """
+        Whether this node is the root of the conditions of its own (sub-)query, decided from where the node is evaluated
+        now: a query nested in another query has conditions of its own, and a node shared between queries may be the
+        whole condition of one of them and an operand in another.
+        """
+        parent = self._parent_
+        if parent is None:
+            return self is self._conditions_root_
+        return isinstance(parent, QueryObjectDescriptor) and parent._child_ is self
+
+    @property
     def _root_(self) -> SymbolicExpression:
         """
         Get the root of the symbolic expression tree.
@@ -1027,7 +1039,7 @@ class Variable(CanBehaveLikeAVariable[T]):
             is_false = False
             if (
                 isinstance(self._parent_, LogicalOperator)
-                or self is self._conditions_root_
+                or self._is_conditions_root_
             ):
                 is_false = not bool(sources[self._id_])
                 self._is_false_ = is_false
@@ -1042,7 +1054,7 @@ class Variable(CanBehaveLikeAVariable[T]):
             # itself a condition its truth value counts; decided here, before the generator is suspended
             is_condition = (
                 isinstance(self._parent_, LogicalOperator)
-                or self is self._conditions_root_
+                or self._is_conditions_root_
             )
             yield from self._instantiate_using_child_vars_and_yield_results_(
                 sources, is_condition
@@ -1217,7 +1229,7 @@ class DomainMapping(CanBehaveLikeAVariable[T], ABC):
         # comparison) before this generator is resumed, which moves the evaluation parent
         is_condition = (
             isinstance(self._parent_, LogicalOperator)
-            or self is self._conditions_root_
+            or self._is_conditions_root_
         )
 
         if self._id_ in sources:
@@ -1272,7 +1284,7 @@ class DomainMapping(CanBehaveLikeAVariable[T], ABC):
         if is_condition is None:
             is_condition = (
                 isinstance(self._parent_, LogicalOperator)
-                or self is self._conditions_root_
+                or self._is_conditions_root_
             )
         if is_condition:
             self._is_false_ = not bool(current_value)
